@@ -152,6 +152,42 @@ def k2_script_structure(check_stdout: bool, check_stderr: bool, present: List[bo
     return True
 
 
+def k2_tmpdir_file(with_cwd_file: bool, binary: bool) -> bool:
+    """
+    post: __return__
+    """
+    # an output file the command writes under gentest's $TMPDIR: at test time the command gets a fresh $TMPDIR, so
+    # the generated test must look for the file there (self.tmpdir), never at the path it had during generation
+    g = _fresh()
+    g.tmp_dir_shell_var = 'TMPDIR'
+    g.tmpdir = gentest.TMPDIR
+    g.tmpdir_used = True
+    name = 'report.png' if binary else 'report.txt'
+    tmpf = gentest.TMPDIR + '/' + name
+    files = [tmpf] + (['/cwd/out.csv'] if with_cwd_file else [])
+    g.reference_files = {1: list(files)}
+    g.filetypes[name] = gc.FT(text=not binary)
+    g.filetypes['out.csv'] = gc.FT(text=True)
+    fs = fakefs.FakeFS({}, dirs=['/cwd'])
+    with fakefs.patched(fs, gentest):
+        text = gc.write_script_text(g, fs)
+    tree = ast.parse(text)
+    cls = [n for n in tree.body if isinstance(n, ast.ClassDef)][0]
+    fns = {n.name: n for n in cls.body if isinstance(n, ast.FunctionDef)}
+    tname = 'test_report_png' if binary else 'test_report_txt'
+    if tname not in fns:
+        return False
+    calls = _call_info(fns[tname])
+    method = 'assertBinaryFileCorrect' if binary else 'assertTextFileCorrect'
+    if calls != [(method, "os.path.join(self.tmpdir, '%s')" % name, "os.path.join(self.refdir, '%s')" % name, [])]:
+        return False
+    # tmpdir itself comes from the environment at test time
+    assigns = [ast.unparse(n) for n in ast.walk(cls) if isinstance(n, ast.Assign) and ast.unparse(n.targets[0]) == 'tmpdir']
+    if not assigns or any(gentest.TMPDIR in a for a in assigns) or not any('environ' in a for a in assigns):
+        return False
+    return gentest.TMPDIR not in ast.unparse(fns[tname])
+
+
 # ---- K3: exclusions are limited ------------------------------------------------------------------------------
 TOKENS = ['host', 'ip', 'cwd', 'homedir', 'tmpdir', 'user']
 
@@ -212,6 +248,10 @@ def _obs():
                   'check_stdout/check_stderr symbolic; presence of %d output files (text, binary, nested, one named '
                   '"stdout"); exclusions present symbolic for stdout and the first file; exit status 0 or 3' % len(FILES),
                   timeout=900, stubs=['fakefs', 'FileType -> text/binary flag chosen by the harness']))
+    obs.append(Ob('K2', 'k2_tmpdir_file', 'an output file under gentest\'s $TMPDIR is looked for under self.tmpdir (taken '
+                  'from the environment when the test runs), never at its generation-time path, and compared with '
+                  'the same-named reference', 'text or binary file under $TMPDIR, with or without a second output in '
+                  'the working directory', timeout=120, stubs=['fakefs', 'FileType -> flag chosen by the harness']))
     for nl, ntok, tier, to in ((1, 6, 'quick', 600), (2, 2, 'quick', 600), (2, 6, 'thorough', 3000),
                                (3, 3, 'thorough', 3000)):
         obs.append(Ob('K3', 'k3_exclusions', 'for a repeatable command the exclusions derived from over-specific '
